@@ -29,6 +29,14 @@ using namespace sim::asio;
 
 namespace sim
 {
+#ifdef LIBSIMULATOR_VERIF
+	namespace verif
+	{
+		void (*on_step)(void*) = nullptr;
+		void* on_step_ctx = nullptr;
+	}
+#endif
+
 	simulation::simulation(configuration& config)
 		: m_config(config)
 		, m_internal_ios(new asio::io_context(*this))
@@ -52,7 +60,20 @@ namespace sim
 		do {
 
 			m_service.restart();
+#ifdef LIBSIMULATOR_VERIF
+			// verification hook: drain the ready queue one handler at a time so
+			// that an observer gets control at every boundary between two events.
+			// poll_one() in a loop runs exactly the handlers poll() would, in the
+			// same order.
+			last_executed = 0;
+			while (m_service.poll_one() > 0)
+			{
+				++last_executed;
+				if (verif::on_step) verif::on_step(verif::on_step_ctx);
+			}
+#else
 			last_executed = m_service.poll();
+#endif
 			ret += last_executed;
 
 			chrono::high_resolution_clock::time_point now
